@@ -148,18 +148,32 @@ func ZZH14bBuilderReuse() {
 	})
 	pb := parser.NewBuilder(lb).WithTolerantMode(sym.Bool("tolerant"))
 	pb.RegisterInfixOperator(pow, 7, mkBinary)
-	n := 0
-	pb.UseExpressionInterceptor(func(p *parser.Parser, next func() ast.Expression) ast.Expression { n++; return next() })
+	var order []int
+	for id := 0; id < 2; id++ {
+		k := id
+		pb.UseExpressionInterceptor(func(p *parser.Parser, next func() ast.Expression) ast.Expression {
+			order = append(order, k)
+			return next()
+		})
+		pb.UseStatementInterceptor(func(p *parser.Parser, next func() ast.Statement) ast.Statement {
+			order = append(order, 10+k)
+			return next()
+		})
+	}
 	run := func(s *Script) jobResult {
 		cur = s
 		s.Rewind()
+		order = nil
 		p := pb.Build("")
 		prog, err := p.ParseProgram()
 		d := DigestOf(prog, false)
-		return jobResult{dig: d.Out, errs: p.Errors(), ok: err == nil}
+		// the interceptor order of this build is part of the result
+		return jobResult{dig: append(d.Out, order...), errs: p.Errors(), ok: err == nil}
 	}
 	sym.Freeze("builder", pb)
 	r1 := run(s1)
+	r1c := run(s1) // consecutive builds for the same input
+	sym.Assert(sameResult(r1, r1c), "second-parser-from-one-builder-equals-the-first")
 	r2 := run(s2)
 	r1b := run(s1)
 	r2b := run(s2)
@@ -174,8 +188,8 @@ func ZZH14bBuilderReuse() {
 	s2.Rewind()
 	pB := pb.Build("")
 	progB, _ := pB.ParseProgram()
-	sym.Assert(SameInts(DigestOf(progA, false).Out, r1.dig), "parsers-from-one-builder-are-independent")
-	sym.Assert(SameInts(DigestOf(progB, false).Out, r2.dig), "parsers-from-one-builder-are-independent")
+	sym.Assert(SameInts(DigestOf(progA, false).Out, r1.dig[:len(DigestOf(progA, false).Out)]), "parsers-from-one-builder-are-independent")
+	sym.Assert(SameInts(DigestOf(progB, false).Out, r2.dig[:len(DigestOf(progB, false).Out)]), "parsers-from-one-builder-are-independent")
 	sym.Assert(errorsEqual(pA.Errors(), r1.errs) && errorsEqual(pB.Errors(), r2.errs), "parsers-from-one-builder-are-independent")
 	sym.Cover("end")
 }
